@@ -268,4 +268,49 @@ theorem midpoints_count (u : List K) (hs : u.Pairwise (· < ·)) (j : Nat) (hj :
 end power
 
 
+section bounds
+variable {K : Type} [Field K] [LinearOrder K] [IsStrictOrderedRing K]
+
+/-- `PowerSpace.linear_binbounds(nbin, first, last) = np.linspace(first, last, nbin - 1)` in exact arithmetic -/
+def linearBounds (nbin : Nat) (first last : K) : List K :=
+  (List.range (nbin - 1)).map fun (i : Nat) => first + ((i : Nat) : K) * ((last - first) / ((nbin - 2 : Nat) : K))
+
+/-- linear bin bounds are strictly increasing (so `searchsorted` is a binning) whenever `first < last`, `nbin ≥ 3` -/
+theorem linear_bounds_sorted (nbin : Nat) (first last : K) (hn : 3 ≤ nbin) (h : first < last) :
+    (linearBounds nbin first last).Pairwise (· < ·) := by
+  unfold linearBounds
+  rw [List.pairwise_map]
+  have hstep : 0 < (last - first) / ((nbin - 2 : Nat) : K) := by
+    apply div_pos (sub_pos.mpr h)
+    exact_mod_cast (by omega : 0 < nbin - 2)
+  refine List.Pairwise.imp ?_ (List.pairwise_lt_range (n := nbin - 1))
+  intro i j hij
+  have : (i : K) < (j : K) := by exact_mod_cast hij
+  nlinarith
+
+/-- … and end exactly at `first` and `last` -/
+theorem linear_bounds_ends (nbin : Nat) (first last : K) (hn : 3 ≤ nbin) :
+    (linearBounds nbin first last).head? = some first ∧ (linearBounds nbin first last).getLast? = some last := by
+  unfold linearBounds
+  obtain ⟨m, rfl⟩ : ∃ m, nbin = m + 3 := ⟨nbin - 3, by omega⟩
+  have e1 : m + 3 - 1 = (m + 1) + 1 := by omega
+  have e2 : m + 3 - 2 = m + 1 := by omega
+  constructor
+  · rw [e1, List.range_succ_eq_map]; simp
+  · rw [e1, List.range_succ, List.map_append, e2]
+    simp only [List.map_cons, List.map_nil, List.getLast?_append, List.getLast?_singleton, Option.some_or]
+    have : ((m + 1 : Nat) : K) ≠ 0 := by exact_mod_cast (by omega : m + 1 ≠ 0)
+    congr 1
+    field_simp
+    ring
+
+/-- logarithmic bounds are the image of linear bounds under a strictly increasing map (`exp`): still strictly increasing -/
+theorem mapped_bounds_sorted (f : K → K) (hf : StrictMono f) (b : List K) (hb : b.Pairwise (· < ·)) :
+    (b.map f).Pairwise (· < ·) := by
+  rw [List.pairwise_map]
+  exact hb.imp (fun h => hf h)
+
+
+end bounds
+
 end NiftyVerif.Domains
